@@ -30,6 +30,16 @@ type Func struct {
 	Entries []Entry
 	Style   string // return | arg (documented style of the method)
 	Reverse bool
+	// slice-typed destination fields with a same-named slice-typed source member (from the generator's
+	// knowledge of the struct pair, not from the output): C16 is checked on them whatever code was emitted
+	SlicePairs []SlicePair
+}
+
+// SlicePair names a destination field and the same-named source member.
+type SlicePair struct {
+	Dst, Src string
+	Getter   bool
+	Named    bool // source or destination is a named slice type
 }
 
 type param struct{ Name, Type string }
@@ -292,6 +302,32 @@ func driverFor(f Func, h *header, srcType string) string {
 			}
 			p := strings.TrimPrefix(e.Path, lhsVar)
 			w("\tif sliceLen(%s) > 0 && sliceBacking(got%s) == sliceBacking(%s) {\n\t\tsemReport(method, \"slice-shares-backing-array-with-source\", %q)\n\t}\n", e.RHS, p, e.RHS, e.Path)
+		}
+	}
+	// C16, independent of the shape of the emitted code: a name-matched slice field that the function assigns
+	if !f.Reverse {
+		for _, sp := range f.SlicePairs {
+			path := lhsVar + "." + sp.Dst
+			assigned := false
+			for _, e := range f.Entries {
+				if e.Path == path && (e.Kind == "assign" || e.Kind == "slice") {
+					assigned = true
+				}
+			}
+			if !assigned {
+				continue
+			}
+			src := "srcCopy." + sp.Src
+			live := srcP.Name + "." + sp.Src
+			if sp.Getter {
+				src += "()"
+				live += "()"
+			}
+			aliasSig := "slice-shares-backing-array-with-source"
+			if sp.Named {
+				aliasSig += ":named-slice-type"
+			}
+			w("\tif isNilSlice(%s) {\n\t\tif !(isNilSlice(got.%s) || sameValue(got.%s, before.%s)) {\n\t\t\tsemReport(method, \"nil-source-slice-became-non-nil\", %q)\n\t\t}\n\t} else if sliceLen(%s) > 0 && sliceBacking(got.%s) == sliceBacking(%s) {\n\t\tsemReport(method, %q, %q)\n\t}\n", src, sp.Dst, sp.Dst, sp.Dst, path, live, sp.Dst, live, aliasSig, path)
 		}
 	}
 	// C10: hooks once, in order, on the real operands
